@@ -1,4 +1,4 @@
-From Coq Require Import List Bool ZArith.
+From Coq Require Import List Bool ZArith Lia.
 From HV Require Import Num ListAux GradDescent.
 Import ListNotations.
 
@@ -100,5 +100,48 @@ Section GDP.
     mono = true -> consecutive (ret_xs (gd_result m0 n)) x x' -> ltb x x' = false.
   Proof.
     destruct (gd_inv m0 n) as [_ _ _ _ _ H]. intros Hm Hc. unfold ret_xs in Hc. apply (proj1 (consecutive_rev _ _ _)) in Hc. apply H; assumption.
+  Qed.
+  (* the guard is exact: the histories have the same length, at most iterations + 1 entries, and the run is
+     shorter than that only when the NEXT step from the returned model was refused (non-finite misfit, or an
+     increase under strictly_monotonic) -- no step that the guard admits is dropped *)
+  Lemma loop_lengths n : forall s, length (gms s) = length (gxs s) ->
+    let r := gd_loop misfit grad eps reg mono n s in
+    length (gms r) = length (gxs r) /\
+    length (gxs s) <= length (gxs r) <= length (gxs s) + n /\
+    (length (gxs r) < length (gxs s) + n ->
+       let x' := misfit (gd_step_of (gm r)) in
+       isnan x' || isinf x' = true \/ ltb (gx r) x' && mono = true).
+  Proof.
+    induction n as [|n IH]; intros s Hl; cbn [gd_loop].
+    { cbv zeta. split; [exact Hl|]. split; [lia|]. intros H; exfalso; lia. }
+    fold (gd_step_of (gm s)).
+    destruct (isnan (misfit (gd_step_of (gm s))) || isinf (misfit (gd_step_of (gm s)))) eqn:Hnf.
+    { cbv zeta; cbn [gm gx gms gxs]. split; [exact Hl|]. split; [lia|]. intros _. left. exact Hnf. }
+    destruct (ltb (gx s) (misfit (gd_step_of (gm s))) && mono) eqn:Hm.
+    { cbv zeta; cbn [gm gx gms gxs]. split; [exact Hl|]. split; [lia|]. intros _. right. exact Hm. }
+    match goal with |- context [gd_loop _ _ _ _ _ n ?s'] => specialize (IH s') end.
+    cbn [gms gxs length] in IH. specialize (IH (f_equal S Hl)).
+    cbv zeta in IH |- *. destruct IH as (H1 & H2 & H3).
+    split; [exact H1|]. split; [lia|]. intros H. apply H3. lia.
+  Qed.
+
+  Lemma gd_lengths m0 n :
+    length (ret_ms (gd_result m0 n)) = length (ret_xs (gd_result m0 n)) /\
+    1 <= length (ret_xs (gd_result m0 n)) <= n + 1.
+  Proof.
+    unfold ret_ms, ret_xs. rewrite !rev_length.
+    destruct (loop_lengths n (gd_init misfit m0) eq_refl) as (H1 & H2 & _).
+    cbn [gd_init gxs length] in H2. split; [exact H1|]. unfold gd_result, gradient_descent. lia.
+  Qed.
+
+  Lemma gd_maximal m0 n :
+    length (ret_xs (gd_result m0 n)) < n + 1 ->
+    let r := gd_result m0 n in
+    let x' := misfit (gd_step_of (gm r)) in
+    isnan x' || isinf x' = true \/ ltb (gx r) x' && mono = true.
+  Proof.
+    unfold ret_xs. rewrite rev_length. intros H.
+    destruct (loop_lengths n (gd_init misfit m0) eq_refl) as (_ & _ & H3).
+    apply H3. cbn [gd_init gxs length]. unfold gd_result, gradient_descent in H. lia.
   Qed.
 End GDP.
